@@ -23,7 +23,7 @@ RULE = ('seeded worlds biased to many chunks / segments and channels absent from
         '(interleaved / DAQmx) of the chunks overlapping the request + the 4 tag bytes of each segment between '
         'the first and last segment holding requested data. distinct = (segment shapes, op kinds); non-trivial = '
         'a non-empty window over a channel with >= 2 chunks was monitored')
-EXPECTED_PROBES = ['repeat-index-same-chunk', 'window-subset-of-chunks', 'interleaved-window', 'string-window']
+EXPECTED_PROBES = ['repeat-index-same-chunk', 'window-subset-of-chunks', 'interleaved-window', 'string-window', 'daqmx-window']
 
 
 def opts(tier):
@@ -39,8 +39,16 @@ def opts(tier):
 
 def generate(rng, tier):
     o = opts(tier)
-    spec, w, _ = gen.gen_world(rng, o)
+    from .c11 import maybe_daqmx_world
+    spec = maybe_daqmx_world(rng, 0.1)
+    if spec is None:
+        spec, w, _ = gen.gen_world(rng, o)
+    else:
+        w = build(spec)
     reqs = _lazy.gen_requests(rng, w, 'quick', per_channel=12)
+    for r in reqs:
+        if r['op'] == 'read_data' and w.chans[r['ch']].type == 'daqmx':
+            r['scaled'] = False
     reqs = [r for r in reqs if not (r['op'] == 'slice' and r['step'] == 0)]
     if len(reqs) > 60:
         reqs = rng.sample(reqs, 60)
@@ -134,7 +142,8 @@ def execute(case):
     res = Result()
     spec = case['spec']
     w = build(spec)
-    res.sig = [shape_sig(spec), sorted(set(o['op'] for o in case['ops']))]
+    from .c04 import _sig
+    res.sig = [_sig(spec), sorted(set(o['op'] for o in case['ops']))]
     with store(record=True) as st:
         st.put('w.tdms', w.data)
         try:
@@ -178,6 +187,8 @@ def execute(case):
                         res.probe('interleaved-window')
                     if ch.type == 'str':
                         res.probe('string-window')
+                    if ch.type == 'daqmx':
+                        res.probe('daqmx-window')
                 if bad:
                     res.violations.append(V(
                         'C19.reads-outside-request', '%s on %s (len %d): %d byte(s) fetched outside the chunks that overlap '
@@ -214,4 +225,5 @@ def shrink_candidates(case):
 
 
 def sample(case):
-    return {'segments': shape_sig(case['spec']), 'ops': case['ops'][:10], 'n_ops': len(case['ops'])}
+    from .c04 import _sig
+    return {'segments': _sig(case['spec']), 'ops': case['ops'][:10], 'n_ops': len(case['ops'])}
